@@ -23,9 +23,11 @@ RULE_TEXT = (
     "texts COMMIT/ROLLBACK; no generated statement is BEGIN/COMMIT/ROLLBACK; C13.e the only callers of "
     "begin/commit/rollback are the public commit()/rollback(); C13.f no other engine cursor is opened while a statement "
     "is carried out; C13.g no generated statement is CHECKPOINT / VACUUM / a checkpoint PRAGMA (refused while another "
-    "session has an open write transaction), also on an instance with db_path."
+    "session has an open write transaction), also on an instance with db_path. C13.h a DML statement whose engine call "
+    "raises an execution-time error (DuckDB aborts the open transaction on those) is followed by a recovery action."
 )
-TRUSTED = ["CPython ast", "DuckDB: transaction state belongs to one cursor; statements outside BEGIN autocommit"]
+TRUSTED = ["CPython ast", "DuckDB: transaction state belongs to one cursor; statements outside BEGIN autocommit",
+           "DuckDB: an execution-time error (constraint, conversion) aborts the open explicit transaction; binder/catalog errors do not"]
 
 
 def rule_shared_handle(ctx):
@@ -234,7 +236,45 @@ def rule_single_handle(ctx):
             break
 
 
+# DuckDB fact (trusted axiom, confirmed once against the pinned engine): an error raised while a statement *executes* — a
+# constraint violation, a conversion error — aborts the connection's open explicit transaction: every later statement fails
+# with "Current transaction is aborted (please ROLLBACK)", and the engine has already rolled the transaction back when COMMIT
+# arrives ("no transaction is active"). Errors raised while the statement is *bound* (unknown table / column) do not.
+ABORTING = ("duckdb.ConstraintException", "duckdb.ConversionException")
+
+
+def rule_failed_statement_keeps_transaction(ctx):
+    """C13.h: a statement that fails inside an explicit transaction leaves the transaction open (Snowflake: the failed
+    statement is rolled back, the transaction goes on and COMMIT makes the other statements visible). With DuckDB's abort
+    semantics that needs a recovery action of fakesnow's own on the failure path of `_execute` (or a guard in front of the
+    statement): on the traces of a DML / query statement whose primary engine call raises an execution-time error, some engine
+    call must follow the failing one (accepted idiom: any statement-level rollback / re-establishing call), or precede it as a
+    savepoint. None: the first such error silently turns the rest of the transaction, COMMIT included, into no-ops."""
+    prog = ctx.prog
+    n = 0
+    for kind in ("INSERT", "UPDATE", "DELETE"):
+        for mode in ABORTING:
+            for tr in traces(prog, kind, mode):
+                if tr.path.outcome != "raise":
+                    continue
+                n += 1
+                texts = [text_of(c[0]).upper() for c in tr.hooks.calls]
+                recovered = len(texts) > 1 and any(t.lstrip().startswith(("ROLLBACK TO", "SAVEPOINT", "RELEASE", "BEGIN", "ROLLBACK")) for t in texts)
+                ctx.ob("C13.h", f"{kind} failing with {mode.split('.')[1]} inside a transaction: the transaction is kept usable", recovered,
+                       "fakesnow/cursor.py", f"engine calls on the failing path: {len(texts)}")
+                if not recovered:
+                    ctx.violation("C13.h", "cursor", "FakeSnowflakeCursor._execute", "execution-time error inside a transaction aborts it",
+                                  "fakesnow/cursor.py",
+                                  f"when a {kind} fails with {mode} (an error raised while the statement executes) the error is passed on and "
+                                  f"nothing restores the open transaction, which DuckDB has aborted: the following statements of the "
+                                  f"transaction raise raw engine errors, and COMMIT reports success ('no transaction is active' is mapped to "
+                                  f"the success status) although every write of the transaction is gone — in Snowflake the failed statement "
+                                  f"alone is rolled back and COMMIT makes the others visible")
+    ctx.floor("C13.h failing traces", n, 6)
+
+
 RULES = [
+    ("C13.h", rule_failed_statement_keeps_transaction, ("quick", "thorough")),
     ("C13.f", rule_single_handle, ("quick", "thorough")),
     ("C13.e", rule_no_implicit_tx_calls, ("quick", "thorough")),
     ("C13.a", rule_handle, ("quick", "thorough")),
